@@ -44,7 +44,8 @@ def run_driver(mod, cases, tag, shards=None, timeout=3000, extra_env=None):
     os.makedirs(work, exist_ok=True)
     n = shards or min(coqrun.NCPU, max(1, len(cases) // 8))
     n = max(1, min(n, getattr(mod, "MAX_DRIVER_SHARDS", n)))
-    chunks = [cases[i::n] for i in range(n)]
+    size = (len(cases) + n - 1) // n if cases else 1
+    chunks = [cases[k * size:(k + 1) * size] for k in range(n)]   # contiguous: neighbours share an interpreter
     procs = []
     env = dict(os.environ)
     env.update({"PYTHONPATH": REPO + os.pathsep + HERE, "PYTHONHASHSEED": "0", "OPTIBUS_PLAYBACK_VERIF": "1",
@@ -76,7 +77,7 @@ def run_driver(mod, cases, tag, shards=None, timeout=3000, extra_env=None):
             continue
         res = json.load(open(cout))
         for j, o in enumerate(res):
-            obs[i + j * n] = o
+            obs[i * size + j] = o
     return obs, errs
 
 
@@ -167,6 +168,12 @@ def main():
 
     # ---- 4. implementation run --------------------------------------------------------------
     obs, derrs = run_driver(mod, cases, pid)
+    for k, env in enumerate(getattr(mod, "ALT_ENVS", [])):   # same cases again in a differently configured interpreter
+        aobs, aerrs = run_driver(mod, cases, "%s_alt%d" % (pid, k), extra_env=env)
+        derrs += aerrs
+        for o, ao in zip(obs, aobs):
+            if o is not None:
+                o.setdefault("alt", []).append(ao)
     if derrs:
         notes.append("driver errors: " + " | ".join(derrs)[:3000])
 
